@@ -1,4 +1,5 @@
 import Qvnt.Props.C11
+import Qvnt.Props.Code.C11
 open Qvnt
 #print axioms C11_finish_events
 #print axioms C11_cond_run
@@ -12,3 +13,4 @@ open Qvnt
 #print axioms C11_masks
 #print axioms C11_refine_partial
 #print axioms C11_refine_xor
+#print axioms C11_code_refine
